@@ -1,4 +1,5 @@
 CONSTANTS
+  Secs <- SecsUniform
   NChrom = 2
   NSec = 3
   Window = 1
